@@ -49,8 +49,17 @@ type UnitSpec struct {
 	SkipInit []string          `json:"skip_init"`
 	FluxStub bool              `json:"flux_stub"` // native build needs the libflux stub module
 	Rewrites []NativeRewrite   `json:"native_rewrites"`
+	Sched     bool     `json:"sched"`          // explore goroutine schedules (sched.go); native replay re-enacts them
+	SchedPkgs []string `json:"sched_packages"` // packages whose mutex/atomic operations are schedule points (default: the unit's)
 	Native   string            `json:"native"`    // "samples" (default): validate sample paths natively; "violations": only counterexamples; "off"
 	Entries  []EntrySpec       `json:"entries"`
+}
+
+func (u *UnitSpec) schedPkgs() []string {
+	if len(u.SchedPkgs) > 0 {
+		return u.SchedPkgs
+	}
+	return []string{u.Package}
 }
 
 // NativeRewrite: textual call-site replacement applied, in the native replay build only, to a copy of
@@ -222,11 +231,26 @@ func (nr *nativeRunner) build() {
 			allStubs[k] = v
 		}
 	}
-	stubRepl, stubNotes := rewriteStubs(allStubs, nr.unit.Package, cache)
+	var schedRepl map[string]string
+	if nr.unit.Sched {
+		src := map[string]string{}
+		for k, v := range repl {
+			if strings.HasPrefix(filepath.Base(k), "zz_verif_h") || strings.Contains(k, "zzverifrt") {
+				src[k] = v
+			}
+		}
+		var sn []string
+		schedRepl, sn = rewriteSched(nr.unit.schedPkgs(), src, cache)
+		nr.notes = append(nr.notes, sn...)
+		for k, v := range schedRepl {
+			repl[k] = v
+		}
+	}
+	stubRepl, stubNotes := rewriteStubs(allStubs, nr.unit.Package, cache, schedRepl)
 	for k, v := range stubRepl {
 		repl[k] = v
 	}
-	nr.notes = stubNotes
+	nr.notes = append(nr.notes, stubNotes...)
 	for i, rw := range nr.unit.Rewrites {
 		orig := filepath.Join(repoDir, rw.File)
 		src := orig
@@ -536,6 +560,8 @@ func cmdCheck(args []string) int {
 				}
 				cfg.Merge = !es.NoMerge
 				cfg.ExpectPanic = es.ExpectPanic
+				cfg.Sched = u.Sched
+				cfg.SchedPkgs = u.schedPkgs()
 				for k, v := range ts.Bounds {
 					cfg.Bounds[k] = v
 				}
